@@ -39,7 +39,7 @@ type Ctl struct {
 }
 
 func NewCtl() *Ctl {
-	return &Ctl{byGid: map[uint64]*cthread{}, Timeout: 25 * time.Millisecond}
+	return &Ctl{byGid: map[uint64]*cthread{}, Timeout: 3 * time.Millisecond}
 }
 
 func gid() uint64 {
@@ -115,6 +115,9 @@ func (c *Ctl) Step(i int) int {
 }
 
 func (c *Ctl) Done(i int) bool { return c.ths[i].done }
+
+// Running: resumed earlier, blocked then, and not parked since.
+func (c *Ctl) Running(i int) bool { return c.ths[i].running }
 func (c *Ctl) N() int          { return len(c.ths) }
 func (c *Ctl) AllDone() bool {
 	for _, t := range c.ths {
